@@ -108,6 +108,9 @@ func convert(in interface{}) Object {
 		return String(val.String())
 
 	case reflect.Interface:
+		if val.IsNil() {
+			return Nil{}
+		}
 
 		if val.Type().NumMethod() == 0 {
 			return convert(val.Interface())
